@@ -52,6 +52,10 @@ func syncOps(e ast.Node) (labels []string) {
 					labels = append(labels, "load("+strings.TrimPrefix(exprStr(v.Args[0]), "&")+")")
 				case recv == "atomic" && strings.HasPrefix(sel.Sel.Name, "Store") && len(v.Args) == 2:
 					labels = append(labels, "store("+strings.TrimPrefix(exprStr(v.Args[0]), "&")+")")
+				case recv == "atomic" && (strings.HasPrefix(sel.Sel.Name, "CompareAndSwap") || strings.HasPrefix(sel.Sel.Name, "Swap") || strings.HasPrefix(sel.Sel.Name, "Add")) && len(v.Args) >= 2:
+					// read-modify-write operations are synchronisation points too: without a yield before them the
+					// cooperative scheduler would run them when the thread is spawned, before anything can be interleaved
+					labels = append(labels, "rmw("+strings.TrimPrefix(exprStr(v.Args[0]), "&")+")")
 				case strings.HasSuffix(recv, ".subscribers") && (sel.Sel.Name == "Add" || sel.Sel.Name == "Remove" || sel.Sel.Name == "MatchAny" || sel.Sel.Name == "Walk"):
 					labels = append(labels, "sl."+sel.Sel.Name)
 				case recv == "sl" && sel.Sel.Name == "Walk":
